@@ -752,6 +752,43 @@ def run_S5(cx, job):
                                 {'rule': rule, 'fmt': fmt,
                                  'roles': sorted(roles)},
                                 exp(roles), got, 'S5')
+    if job['shard'] == 0:
+        # shapes with EMPTY entries ([] or '') among the others.  Whether an
+        # empty entry counts as absent or as an always-true alternative the
+        # statement leaves open; both readings agree that the rule allows
+        # whenever the OR over its non-empty entries does - only that
+        # direction is judged here (and that nothing raises)
+        small = _entries(labels, 2)
+        for n in (1, 2):
+            for shape in itertools.product(small, repeat=n):
+                for pos in range(n + 1):
+                    for empty in ([], ''):
+                        rule = list(shape[:pos]) + [empty] + list(shape[pos:])
+                        base = list(shape)
+                        cx.acc.case('S5', True)
+                        try:
+                            cx.enf.set_rules(cx.policy.Rules.from_dict(
+                                {'p': rule}), use_conf=False)
+                        except Exception as e:
+                            cx.acc.violation(
+                                'S5|empty-entry|load', 'loading %r raised %r'
+                                % (rule, e), {'rule': rule}, 'loads', repr(e),
+                                'S5')
+                            continue
+                        for roles, creds in cx.assignments(2):
+                            cx.acc.ev()
+                            got = world.decide(cx.enf, 'p', {}, creds)
+                            floor = lang.decide_list(base, leaf(roles))
+                            if got[0] != 'ok' or (floor and not got[1]):
+                                cx.acc.violation(
+                                    'S5|empty-entry|%s' % (
+                                        'denies' if got[0] == 'ok' else
+                                        got[1]),
+                                    'list rule %r decides %r for %s although '
+                                    'its non-empty entries %r allow' %
+                                    (rule, got, sorted(roles), base),
+                                    {'rule': rule, 'roles': sorted(roles)},
+                                    True, got, 'S5')
     cx.acc.sample('S5', rule)
 
 
